@@ -48,6 +48,9 @@ func gen(prop, tier string, r *rand.Rand, idx int) any {
 	default:
 		sc.Size = 1 + r.IntN(16)
 	}
+	if prop == "C19" {
+		sc.Size = -r.IntN(4) // the documented default: a size <= 0 means one worker
+	}
 	eff := sc.Size
 	if eff < 1 {
 		eff = 1
@@ -424,7 +427,10 @@ func oracle(prop string, sc *Scn, eff, total int, roundOf map[int]int, late map[
 		}
 		return nil
 	}
-	// C12
+	// C12; for C19 (pool sizes <= 0 only) additionally "one worker": never two tasks at once
+	if prop == "C19" && over != nil {
+		return over
+	}
 	if len(res.Panics) > 0 {
 		return viol("panic", "%v", res.Panics)
 	}
